@@ -64,9 +64,14 @@ def explore_grammar(args):
             inp = SliceRef(VecObj(list(bs), "input"), 0, n, True)
             out = {"I": I}
             try:
-                s0 = I.call("", "ParserState::new", [inp])
-                r = I.call("", "Vm::parse_rule", [Ptr(Cell(vm)), str_const(start.encode()), s0])
-                out["ok"] = r.idx == 0; out["ps"] = I.deref(r.f[0])
+                if opts.get("via_state"):
+                    from props.c03 import S_STATE
+                    I.S = S_STATE
+                    out["sr"] = I.call("", "Vm::parse", [Ptr(Cell(vm)), str_const(start.encode()), inp])
+                else:
+                    s0 = I.call("", "ParserState::new", [inp])
+                    r = I.call("", "Vm::parse_rule", [Ptr(Cell(vm)), str_const(start.encode()), s0])
+                    out["ok"] = r.idx == 0; out["ps"] = I.deref(r.f[0])
             except Panic as e:
                 out["panic"] = str(e)
             except StepLimit as e:
@@ -94,6 +99,18 @@ def explore_grammar(args):
             row = {"n": n, "inp": bytes(evb(b) for b in bs).hex() or "-"}
             if "panic" in res: row["vm"] = {"res": "PANIC", "msg": res["panic"]}
             elif "steplimit" in res: row["vm"] = {"res": "NONTERM", "msg": res["steplimit"]}
+            elif "sr" in res:
+                r = res["sr"]; v = r.f[0]
+                if r.idx == 0:
+                    class _F: pass
+                    q = vm_queue(Agg([None, res["I"].deref(v.f[0])], "ps"))
+                    row["vm"] = {"res": "OK", "toks": tok_str(q), "tags": tags_str(q)}
+                else:
+                    variant, pos = v.f[0], v.f[1]
+                    if variant.var == "CustomError":
+                        row["vm"] = {"res": "ERR", "at": pos.f[1], "custom": bytes(variant.f[0].f).decode(errors="replace")}
+                    else:
+                        row["vm"] = {"res": "ERR", "at": pos.f[1], "P": [_nm(x) for x in variant.f[0].f], "N": [_nm(x) for x in variant.f[1].f]}
             else:
                 ps = res["ps"]; q = vm_queue(ps)
                 row["vm"] = {"res": "OK" if res["ok"] else "ERR", "pos": ps.f[F_POSITION].f[1], "toks": tok_str(q), "tags": tags_str(q),
